@@ -141,6 +141,7 @@ type FnCtx struct {
 	freshBase    *Term
 	oldState     *State // pre-state for two-state postcondition predicates
 	curLatch     string
+	isGhostTop   int
 	loopAssume   []loopAssumption
 }
 
@@ -222,6 +223,15 @@ func (c *FnCtx) addObl(st *State, kind, anchor string, goal *Term, pos token.Pos
 
 func (c *FnCtx) addObl1(st *State, kind, anchor string, goal *Term, pos token.Pos, src string) *Obligation {
 	ts := c.eng.ts
+	if c.ghostTop() {
+		// a specification function is a total mathematical function: only its contract (post, variant, pre of
+		// callees) is proved; run-time safety of its executable rendering is not a proof obligation
+		switch kind {
+		case "post", "pre", "variant", "inv-init", "inv-step", "lemma":
+		default:
+			return nil
+		}
+	}
 	g := ts.Skolemize(ts.Implies(st.pc, goal))
 	c.kindOrd[kind]++
 	fname := c.top.RelString(c.top.Pkg.Pkg)
@@ -256,10 +266,20 @@ func (c *FnCtx) addFactNth(st *State, seq, f *Term) {
 // assumeChecked: a condition that has just been emitted as an obligation may be assumed afterwards.
 // When obligations are suppressed (ghost evaluation) nothing justifies the assumption, so it is not made.
 func (c *FnCtx) assumeChecked(st *State, f *Term) {
-	if c.noObl > 0 {
+	if c.noObl > 0 || c.ghostTop() {
 		return
 	}
 	c.addFact(st, f)
+}
+
+func (c *FnCtx) ghostTop() bool {
+	if c.isGhostTop == 0 {
+		c.isGhostTop = 1
+		if c.eng.isGhostFn(c.top) {
+			c.isGhostTop = 2
+		}
+	}
+	return c.isGhostTop == 2
 }
 
 // ---- state accessors ----
